@@ -3721,6 +3721,14 @@ coap_handle_response_get_block(coap_context_t *context,
 
     /* lg_crcv found */
 
+    if (rcvd->code == COAP_RESPONSE_CODE(231) && !lg_crcv->initial) {
+      /*
+       * A (duplicate or late) 2.31 from the Block1 phase of this request,
+       * which is over as the response body is already being received.
+       */
+      goto skip_app_handler;
+    }
+
     if (COAP_RESPONSE_CLASS(rcvd->code) == 2) {
       size_t length;
       const uint8_t *data;
